@@ -14,6 +14,10 @@ RULE = ("Hypothesis-generated (and, for short lengths, exhaustively enumerated) 
         "StreamToDict, StreamSummary and StreamToExtendedDecorator (one after the other, or all three alive "
         "at once and fed in lockstep; strings built at run time, never the interned literals) and compared with a reference "
         "segmentation model written from the property statement. Also: an earlier run on the same consumer objects, reports re-read after stopTestRun, the run bracket at the wrapped result, interleaved attachments with a text attachment cut inside a character and a file called 'traceback', 65..1100 tests in progress at once, attachments up to 3 x 1 MiB, naive / sub-second / non-UTC stamps. "
+        "Also (random and as a small exhaustive grid): the file name '', the routes '' / None, a latin-1 log (valid in its declared charset, not valid UTF-8), "
+        "a stamp ahead of the real clock, 26 / 130 tests never finished, a wrapped result with failfast set, a caller passing the same set object for equal tags; "
+        "content types (StreamToDict and the wrapped result) are compared with a table written in the check; a chunk after an eof chunk of the same "
+        "attachment may be concatenated or discarded (one reading per case). "
         "Non-trivial: >=2 test ids "
         "interleaved (events of another key between first and last event of a key), or one id on two "
         "routes, or an id reused after a final status; distinct = distinct canonical event list.")
@@ -22,6 +26,20 @@ ASSUMPTIONS = [
     "the file name 'reason' is not used (StreamSummary decodes it as the skip reason)",
     "content type of an attachment is asserted only when every chunk of it names the same mime type",
     "wasSuccessful() after 'uxsuccess' is not asserted (statement: failed or incomplete tests)",
+    "wasSuccessful() is expected to be True only when at least one counted test was reported and none failed, hung or "
+    "unexpectedly succeeded (the converse of the statement's clause; a run without tests may answer either way)",
+    "a chunk that follows an eof=True chunk of the same attachment of the same test: the statement is silent; both the "
+    "code's reading (concatenated) and the StreamResult.status docstring's (discarded) are accepted, anything else is reported",
+    "timestamps are compared as instants (==): a consumer that hands back an equal datetime in another zone satisfies "
+    "'first and last timestamps'; naive stamps must come back naive (== between naive and aware is False)",
+    "events without a test id are ignored, as the statement says (the StreamToExtendedDecorator docstring promises a "
+    "'testtools.extradata' pseudo-test that the code does not produce; producing it would be reported as an extra test)",
+    "beyond the letter of the statement but documented: the StreamToDict 'timestamps' entry has exactly two elements, a "
+    "test dict still reads the same after stopTestRun, startTest/outcome/stopTest of one bracket name the same test id",
+    "the caller never mutates a tag set it has passed (the consumers keep a reference to it); with share=True it passes "
+    "the same set object again for equal tags",
+    "the meaning of the mime strings of the alphabets is tabulated in MIME_TABLE; only a mime string outside the table "
+    "(hand-written replay) is parsed with the library's private _make_content_type",
 ]
 
 OUTCOME_OF = {"success": "addSuccess", "skip": "addSkip", "fail": "addFailure",
@@ -69,19 +87,44 @@ def _canon_model(rec):
             tuple(sorted(files.items())))
 
 
+# what the mime strings of the alphabets mean, written down here (not computed by the tree under test)
+MIME_TABLE = {
+    None: ("application", "octet-stream", {}),
+    "application/octet-stream": ("application", "octet-stream", {}),
+    'application/x-bar; k="v"': ("application", "x-bar", {"k": "v"}),
+    "text/plain": ("text", "plain", {}),
+    'text/plain; charset="utf8"': ("text", "plain", {"charset": "utf8"}),
+    "text/plain;charset=utf8": ("text", "plain", {"charset": "utf8"}),
+    'text/x-log; charset="utf8"': ("text", "x-log", {"charset": "utf8"}),
+    "text/plain; charset=latin-1": ("text", "plain", {"charset": "latin-1"}),
+    'text/x-log;charset="iso-8859-1"': ("text", "x-log", {"charset": "iso-8859-1"}),
+}
+
+
 def _mime_ok(vs, who, rec, name, ct):
-    from testtools.testresult.real import _make_content_type
     mimes = rec["files"][name]["mimes"]
-    if len(mimes) == 1:
-        want = _make_content_type(next(iter(mimes)))
-        if ct != want:
-            vs.append(V("attachment-type", who, "file %r has content type %r, events said %r" % (name, ct, want)))
+    if len(mimes) != 1:
+        return
+    mime = next(iter(mimes))
+    if mime in MIME_TABLE:
+        want = MIME_TABLE[mime]
+        got = (getattr(ct, "type", None), getattr(ct, "subtype", None), dict(getattr(ct, "parameters", None) or {}))
+    else:       # a mime string from a hand-written replay: ask the library's parser
+        from testtools.testresult.real import _make_content_type
+        want, got = _make_content_type(mime), ct
+    if got != want:
+        vs.append(V("attachment-type", who, "file %r has content type %r, events said %r (%r)" % (name, ct, mime, want)))
+
+
+def _report_key(t):
+    """A total order on canonical tuples that does not depend on set iteration order."""
+    return (repr(t[0]), repr(t[1]), sorted(map(repr, t[2])), repr(t[3]), repr(t[4]), repr(t[5]))
 
 
 def _check_reports(vs, who, got, finals, flushed):
     """got: list of canonical tuples (id,status,tags,first,last,files) in report order."""
     want_f = [_canon_model(r) for r in finals]
-    want_x = sorted((_canon_model(r) for r in flushed), key=repr)
+    want_x = sorted((_canon_model(r) for r in flushed), key=_report_key)
     nf = len(want_f)
     if len(got) != nf + len(want_x):
         vs.append(V("exactly-once", who + "-count", "%d tests reported, model expects %d final + %d incomplete; got ids %r" % (
@@ -92,7 +135,7 @@ def _check_reports(vs, who, got, finals, flushed):
             field = next(n for n, a, b in zip(("id", "status", "tags", "first-timestamp", "last-timestamp", "attachments"), g, w) if a != b)
             vs.append(V("report-content", who + "-" + field, "report %d is %r, model expects %r" % (i, g, w)))
             return
-    rest = sorted(got[nf:], key=repr)
+    rest = sorted(got[nf:], key=_report_key)
     if rest != want_x:
         vs.append(V("report-content", who + "-incomplete", "incomplete reports %r, model expects %r" % (rest, want_x)))
 
@@ -107,6 +150,11 @@ def _enum_many_open():
         for k in reversed(range(n)):
             evs.append(dict(test_id="t%d" % k, route_code=None, test_status="success" if k % 3 else "fail", test_tags=None, runnable=True,
                             timestamp=2, file_name=None, file_bytes=None, eof=False, mime_type=None))
+        yield {"events": evs}
+    # more tests than any plausible cap still in progress when the run stops (none is ever finished)
+    for n in (26, 130):
+        evs = [dict(test_id="t%d" % k, route_code=None, test_status="inprogress" if k % 2 else None, test_tags=None, runnable=True,
+                    timestamp=1, file_name="f", file_bytes=b"%d" % k, eof=False, mime_type="text/plain") for k in range(n)]
         yield {"events": evs}
     # and attachments far beyond any buffer size
     for size in (5000, 70000, 1 << 20):
@@ -148,6 +196,50 @@ def _enum_interleaved_files():
                 yield {"events": evs, "mode": "lockstep"}
 
 
+def _enum_values():
+    """Single values that the random alphabets hold too, but too thinly to be met at every seed."""
+    def ev(**kw):
+        base = dict(test_id="a", route_code=None, test_status=None, test_tags=None, runnable=True, timestamp=1,
+                    file_name=None, file_bytes=None, eof=False, mime_type=None)
+        base.update(kw)
+        return base
+
+    def both(evs, **kw):
+        yield dict(kw, events=evs)
+        yield dict(kw, events=evs, mode="lockstep")
+    for status in ("fail", "success", "skip", "xfail", None):
+        tail = [ev(test_status=status, timestamp=2)] if status else []
+        # the empty file name is a file name
+        for mime in (None, "application/octet-stream"):
+            yield from both([ev(file_name="", file_bytes=b"x", mime_type=mime), ev(file_name="g", file_bytes=b"y"),
+                             ev(file_name="", file_bytes=b"\xff", mime_type=mime)] + tail)
+        # a log in latin-1: valid in its declared charset, not valid UTF-8
+        for mime in LATIN_MIMES:
+            yield from both([ev(file_name=LATIN_NAME, file_bytes=b"caf\xe9", mime_type=mime), ev(test_status="inprogress"),
+                             ev(file_name=LATIN_NAME, file_bytes=b"\xe9t\xe9\n", mime_type=mime)] + tail)
+        # the routes '' and None are two routes
+        for r1, r2 in (("", None), (None, ""), ("", "0")):
+            yield from both([ev(route_code=r1, test_status="inprogress", test_tags={"t"}),
+                             ev(route_code=r2, test_status="inprogress", timestamp=3, file_name="f", file_bytes=b"1", mime_type="text/plain"),
+                             ev(route_code=r1, file_name="f", file_bytes=b"2", mime_type="text/plain")]
+                            + [dict(e, route_code=r1) for e in tail])
+        # a chunk after an eof chunk of the same attachment: concatenated or discarded, nothing else
+        yield from both([ev(file_name="f", file_bytes=b"1", eof=True, mime_type="text/plain"), ev(file_name="g", file_bytes=b"\x00"),
+                         ev(file_name="f", file_bytes=b"2", mime_type="text/plain")] + tail)
+    # timestamps ahead of the real clock, sub-second, not in UTC, naive - first and last
+    for s1 in (None, 1, "future", "tz", "usec", "naive"):
+        for s2 in (None, 2, "future", "tz", "usec", "naive"):
+            yield {"events": [ev(test_status="inprogress", timestamp=s1), ev(test_id="b", timestamp=s2), ev(test_status="success", timestamp=s2)]}
+    # a wrapped result that asks to stop at the first failure is still told about every later and every hung test
+    for first in ("fail", "uxsuccess"):
+        yield from both([ev(test_status=first), ev(test_id="b", test_status="inprogress"), ev(test_id="c", test_status="success"),
+                         ev(test_id="d", test_status="fail"), ev(test_id="e", test_status="inprogress")], failfast=True)
+    # a caller that passes the very same set object whenever the tags are the same
+    for t1, t2 in (({"t"}, {"u"}), ({"t"}, set()), (frozenset({"t"}), frozenset({"u", "v"})), ({"t", "u"}, {"t"})):
+        yield from both([ev(test_tags=t1), ev(test_tags=t2), ev(test_id="b", test_tags=t1), ev(test_status="fail"),
+                         ev(test_id="c", test_tags=t1, test_status="success"), ev(test_id="b", test_status="skip")], share=True)
+
+
 def _enum_long():
     for n in (1, 63, 64, 65, 66, 130):
         for two in (False, True):
@@ -163,19 +255,49 @@ def _enum_long():
             yield {"events": evs}
 
 
-def send(result, ev, npos):
-    """One status() call, the first ``npos`` parameters positionally (documented parameter order)."""
+def send(result, ev, npos, cache=None):
+    """One status() call, the first ``npos`` parameters positionally (documented parameter order).
+    ``cache``: the caller keeps one set object per distinct tag set and passes it again and again (it never
+    changes it itself)."""
     kw = streams.kwargs_of(ev)
+    if cache is not None and kw["test_tags"] is not None:
+        t = kw["test_tags"]
+        kw["test_tags"] = cache.setdefault((isinstance(t, frozenset), frozenset(t)), t)
     args = [kw.pop(f) for f in streams.FIELDS[:npos]]
     result.status(*args, **kw)
 
 
+def _canon_all(events, eof_closes):
+    finals, flushed = reference(events, eof_closes)
+    return [_canon_model(r) for r in finals], sorted((_canon_model(r) for r in flushed), key=_report_key)
+
+
 def run_case(spec):
+    """The statement does not say what a chunk that follows an ``eof`` chunk of the same attachment does: the
+    code concatenates it, the StreamResult.status docstring says it is discarded.  Either reading is accepted
+    (the whole case must follow one of them)."""
+    case = _run(spec, False)
+    if case.violations and _canon_all(spec["events"], False) != _canon_all(spec["events"], True):
+        alt = _run(spec, True)
+        if not alt.violations:
+            return alt
+    return case
+
+
+def _tid(test):
+    try:
+        return test.id()
+    except Exception as e:      # not a test object: compare it by what it is
+        return ("not-a-test", repr(test), type(e).__name__)
+
+
+def _run(spec, eof_closes):
     from testtools.testresult.real import StreamToDict, StreamSummary, StreamToExtendedDecorator
     events = spec["events"]
     npos = list(spec.get("npos", [])) + [0] * len(events)
-    finals, flushed = reference(events)
+    finals, flushed = reference(events, eof_closes)
     vs = []
+    cache = {} if spec.get("share") else None
 
     # ---- StreamToDict
     reports = []
@@ -193,6 +315,7 @@ def run_case(spec):
     s2d = StreamToDict(on_test)
     summ = StreamSummary()
     ext = Ext()
+    ext.failfast = bool(spec.get("failfast"))     # a result that asks to stop at the first failure is still told about every test
     s2e = StreamToExtendedDecorator(ext)
     lockstep = spec.get("mode") == "lockstep"
     if spec.get("prelude"):
@@ -210,7 +333,7 @@ def run_case(spec):
             c.startTestRun()
         for ev, n in zip(events, npos):
             for c in (s2d, summ, s2e):
-                send(c, ev, n)
+                send(c, ev, n, cache)
         n_before_stop = len(reports)
         n_out_before = len([e for e in ext.events if e[0].startswith("add")])
         for c in (s2d, summ, s2e):
@@ -218,7 +341,7 @@ def run_case(spec):
     else:
         s2d.startTestRun()
         for ev, n in zip(events, npos):
-            send(s2d, ev, n)
+            send(s2d, ev, n, cache)
         n_before_stop = len(reports)
         s2d.stopTestRun()
     if n_before_stop != len(finals):
@@ -238,7 +361,7 @@ def run_case(spec):
     if not lockstep:
         summ.startTestRun()
         for ev, n in zip(events, npos):
-            send(summ, ev, n)
+            send(summ, ev, n, cache)
         summ.stopTestRun()
     allrecs = finals + flushed
     counted = [r for r in allrecs if r["status"] != "exists"]
@@ -262,19 +385,21 @@ def run_case(spec):
             vs.append(V("summary", name, "%s holds %r, model expects %r" % (name, got, want)))
     bad = bool(want_lists["errors"])
     ok = summ.wasSuccessful()
+    if summ.wasSuccessful() != ok:
+        vs.append(V("summary", "wasSuccessful-unstable", "wasSuccessful() answered %r, then %r" % (ok, not ok)))
     if bad and ok:
         vs.append(V("summary", "wasSuccessful-true", "wasSuccessful() is True with failed/incomplete tests %r" % want_lists["errors"]))
-    if not bad and not want_lists["unexpectedSuccesses"] and not ok:
+    if counted and not bad and not want_lists["unexpectedSuccesses"] and not ok:
         vs.append(V("summary", "wasSuccessful-false", "wasSuccessful() is False although no test failed"))
 
     # ---- StreamToExtendedDecorator
     if not lockstep:
         s2e.startTestRun()
         for ev, n in zip(events, npos):
-            send(s2e, ev, n)
+            send(s2e, ev, n, cache)
         n_out_before = len([e for e in ext.events if e[0].startswith("add")])
         s2e.stopTestRun()
-    f2, x2 = reference([e for e in events if e["test_status"] != "exists"])
+    f2, x2 = reference([e for e in events if e["test_status"] != "exists"], eof_closes)
     brackets, cur = [], None
     shape_ok = True
     for e in ext.events:
@@ -295,18 +420,19 @@ def run_case(spec):
     run_calls = [e[0] for e in ext.events if e[0] in ("startTestRun", "stopTestRun")]
     if run_calls != ["startTestRun", "stopTestRun"] or ext.events[0][0] != "startTestRun" or ext.events[-1][0] != "stopTestRun":
         vs.append(V("extended", "run-bracket", "the wrapped result saw %r around %d other events" % (run_calls, len(ext.events) - len(run_calls))))
-    if not shape_ok or any(len(b) != 3 or b[0][1] is not b[1][1] or b[1][1] is not b[2][1] for b in brackets):
+    if not shape_ok or any(len(b) != 3 or not (_tid(b[0][1]) == _tid(b[1][1]) == _tid(b[2][1])) for b in brackets):
         vs.append(V("extended", "bracket-shape", "not one startTest/outcome/stopTest bracket per test: %r" % [e[0] for e in ext.events]))
     else:
         if n_out_before != len(f2):
             vs.append(V("exactly-once", "StreamToExtended-timing", "%d outcomes before stopTestRun, %d final statuses" % (n_out_before, len(f2))))
-        got = []
+        got, dets = [], []
         for b in brackets:
             start, out, stop = b
             ctx = out[2]
             det = ctx.get("details") or {}
             files = tuple(sorted((n, d[2]) for n, d in det.items() if d[2]))
-            got.append((start[1].id(), out[0], ctx["tags"], start[2]["time"], ctx["time"], files))
+            got.append((_tid(start[1]), out[0], ctx["tags"], start[2]["time"], ctx["time"], files))
+            dets.append(det)
 
         def want_of(rec):
             return (rec["id"], OUTCOME_OF.get(rec["status"], "INCOMPLETE"), rec["tags"], streams.ts(rec["first"]),
@@ -330,10 +456,13 @@ def run_case(spec):
         if len(got) != len(wf) + len(wx):
             vs.append(V("exactly-once", "StreamToExtended-count", "%d brackets, model expects %d+%d" % (len(got), len(wf), len(wx))))
         else:
-            for g, w in zip(got, wf):
+            for g, w, rec, det in zip(got, wf, f2, dets):
                 if not same(g, w, None):
                     vs.append(V("report-content", "StreamToExtended", "bracket %r, model expects %r" % (g, w)))
                     break
+                for name, d in det.items():
+                    if name in rec["files"]:
+                        _mime_ok(vs, "StreamToExtended", rec, name, d[1])
             rest = list(got[len(wf):])
             if wx:
                 # an incomplete test without a first timestamp accepts any start time: assign brackets
@@ -364,7 +493,30 @@ def run_case(spec):
     return Case(vs, nt, [l for l in labels if l], {"reports": [r[0][:2] for r in reports]})
 
 
-EVENTS = st.lists(streams.event(ids=(None, "a", "b", "c", "0/a", ""), stamps=(None, 0, 1, 2, 3, 5, "usec", "tz", "naive")), max_size=25)
+LATIN_NAME = "l1"       # a text attachment whose bytes are valid in its declared charset and are NOT valid UTF-8
+LATIN_MIMES = ("text/plain; charset=latin-1", 'text/x-log;charset="iso-8859-1"')
+LATIN_CHUNKS = (b"caf\xe9", b"", b"\xe9t\xe9\n")
+BASE_EVENT = streams.event(ids=(None, "a", "b", "c", "0/a", ""),
+                           routes=st.one_of(streams.ROUTE, streams.ROUTE, streams.ROUTE, streams.ROUTE, streams.ROUTE, st.just("")),
+                           stamps=(None, 0, 1, 2, 3, 5, "usec", "tz", "naive", "future"))
+
+
+@st.composite
+def c10_event(draw):
+    """streams.event plus two values of C10's own: the file name '' (for the binary attachment) and a latin-1 log."""
+    ev = draw(BASE_EVENT)
+    if ev["file_name"] is not None:
+        x = draw(st.integers(0, 7))
+        if x < 2 and ev["file_name"] in streams.BIN_NAMES:
+            ev["file_name"] = ""
+        elif x < 2:
+            ev["file_name"] = LATIN_NAME
+            ev["mime_type"] = draw(st.sampled_from(LATIN_MIMES))
+            ev["file_bytes"] = draw(st.sampled_from(LATIN_CHUNKS))
+    return ev
+
+
+EVENTS = st.lists(c10_event(), max_size=25)
 NPOS = st.lists(st.integers(0, 10), max_size=25)
 
 
@@ -413,6 +565,7 @@ def subchecks(tier):
     gen4, k4 = _enum4()
     return [
         Sub("random_streams", run_case, st.fixed_dictionaries({"events": EVENTS, "npos": NPOS, "mode": st.sampled_from(["one-by-one", "lockstep"]),
+                                                               "failfast": st.sampled_from([False, False, True]), "share": st.booleans(),
                                                                "prelude": st.one_of(st.none(), st.none(), st.lists(streams.event(), max_size=6))}),
             2500 if q else 150000),
         Sub("many_open_tests_and_big_attachments", run_case, enum=_enum_many_open, enum_complete=True,
@@ -420,6 +573,9 @@ def subchecks(tier):
         Sub("interleaved_attachments", run_case, enum=_enum_interleaved_files, enum_complete=True,
             note="one test, attachments arriving interleaved (f, g, f, ...; also a file called 'traceback'), a text attachment cut "
                  "inside a multi-byte character, another test's events in between, every final status and none"),
+        Sub("single_values", run_case, enum=_enum_values, enum_complete=True,
+            note="the file name '', a latin-1 log, the routes '' / None / '0', a chunk after eof, every pair of timestamp kinds "
+                 "(incl. one in 2100), a failfast wrapped result, a caller re-using its tag set objects; one-by-one and lockstep"),
         Sub("long_attachments", run_case, enum=_enum_long, enum_complete=True,
             note="one or two tests with 1, 63, 64, 65, 66, 130 chunks of one attachment"),
         Sub("enumerated_streams", run_case, enum=gen, enum_complete=True,
